@@ -287,7 +287,9 @@ def run(ctx):
     ctx.trusted = ['TLC', 'the code<->array weight patterns of the driver (conc/proj_col)']
     hists = []
     for cfg in (('Atoms_exh.cfg' if quick else 'Atoms_exh_thorough.cfg'), 'Atoms_exh_sys.cfg'):
-        r = tlc.must_pass(tlc.run('MC_AtomsStore', cfg, workers=16, timeout=6000, heap='12g'), cfg)
+        # the thorough enumeration prints ~650 000 histories (1.3 GB of JSON): they stay text here and are parsed one at a time by the
+        # replay workers (as Python objects they once exhausted 56 GB)
+        r = tlc.must_pass(tlc.run('MC_AtomsStore', cfg, workers=16, timeout=6000, heap='12g', raw_cases=True, keep_stdout=False), cfg)
         ctx.add_tlc(r)
         hists += r.cases
     ctx.exhaustive = True
@@ -300,27 +302,26 @@ def run(ctx):
         for f in futs:
             rs = tlc.must_pass(f.result(), 'Atoms_sim')
             ctx.add_tlc(rs)
-            hists += [h for h in rs.cases if len(h) == 9]
+            hists += [json.dumps(h) for h in rs.cases if len(h) == 9]
     ctx.extra['histories'] = len(hists)
     import multiprocessing as mp
     chunks = [hists[i::16] for i in range(16)]
     with mp.get_context('fork').Pool(16) as pool:
         results = pool.map(_replay_chunk, chunks)
     acts = {}
-    for chunk, res in zip(chunks, results):
-        for h, bad in zip(chunk, res):
-            ctx.count()
-            ctx.traces += 1
-            for s in h:
-                acts[s['act']] = acts.get(s['act'], 0) + 1
-            if any(s['act'] not in ('init', 'new', 'propget', 'syspropget', 'sysnew') for s in h):
-                ctx.nontrivial_count += 1
-            if bad:
-                ctx.violation(bad[0], bad[1], h)
+    for chunk, (bads, cnt, nontriv) in zip(chunks, results):
+        ctx.count(len(chunk))
+        ctx.traces += len(chunk)
+        ctx.nontrivial_count += nontriv
+        for k_, v_ in cnt.items():
+            acts[k_] = acts.get(k_, 0) + v_
+        for idx, bad in bads:
+            ctx.violation(bad[0], bad[1], json.loads(chunk[idx]))
     ctx.extra['action_counts'] = acts
     # binding self-test: a history whose recorded expectation is corrupted in one cell MUST be rejected by the replay
     import copy
-    for h in hists:
+    for ht in hists:
+        h = json.loads(ht)
         if replay_history(am, h) is None and h[-1]['objs'][0]['n'] > 0:
             hc = copy.deepcopy(h)
             k = hc[-1]['objs'][0]['keys'][-1]
@@ -329,7 +330,7 @@ def run(ctx):
                 raise tlc.MachineryError('binding self-test: corrupted expectation was accepted')
             ctx.extra['corrupted_history_rejected'] = True
             break
-    hh = hists[len(hists) // 2]
+    hh = json.loads(hists[len(hists) // 2])
     ctx.sample({'kind': 'S->C history (actions, args)', 'steps': [{'act': s['act'], 'args': s['args'], 'ret': s['ret']} for s in hh]})
     from .. import umbrella
     umbrella.run(ctx, am, 'C06')      # cross-module histories of spec/Atomman.tla (only the steps this property owns are reported here)
@@ -338,7 +339,17 @@ def _replay_chunk(hs):
     import atomman as am
     import warnings
     warnings.filterwarnings('ignore')
-    return [replay_history(am, h) for h in hs]
+    bads, cnt, nontriv = [], {}, 0
+    for idx, ht in enumerate(hs):
+        h = json.loads(ht)
+        for s in h:
+            cnt[s['act']] = cnt.get(s['act'], 0) + 1
+        if any(s['act'] not in ('init', 'new', 'propget', 'syspropget', 'sysnew') for s in h):
+            nontriv += 1
+        bad = replay_history(am, h)
+        if bad:
+            bads.append((idx, bad))
+    return bads, cnt, nontriv
 
 
 def replay(path):
